@@ -15,7 +15,7 @@ import subprocess
 import sys
 import time
 
-from . import build, configs, gen, llir, ops, runner, known, sysconsts, special, memops, validate
+from . import build, configs, gen, llir, ops, runner, known, sysconsts, special, memops, validate, changes
 
 ROOT = os.path.dirname(build.HERE)
 EVIDENCE = os.path.join(ROOT, 'evidence')
@@ -92,6 +92,8 @@ def main(argv=None):
 
 def run_wrapper_property(prop, tier, seed, a, t0, extra_tasks=None, extra_evidence=None, cfgs=None, gen_kwargs=None):
     budget = dict(BUDGET[tier])
+    if prop == 'C05' and tier == 'quick':
+        budget.update({'hard_s': 110, 'max_unknown': 1, 'fallback_s': 15})      # division: most 16/32-bit float-route queries are hopeless in the quick budget
     ladder = configs.check_ladder(build.REPO)
     cfgs = cfgs or configs.for_tier(tier)
     if a.configs:
@@ -105,8 +107,31 @@ def run_wrapper_property(prop, tier, seed, a, t0, extra_tasks=None, extra_eviden
     n_dedup = 0
     per_cfg_counts = {}
     validation = {'cases': 0, 'skipped': 0, 'mismatches': [], 'errors': [], 'wall_s': 0.0}
+    # change awareness (quick tier only, additive): headers that differ from the committed baseline pull in every configuration
+    # for the vector types they can affect
+    focus = {}
+    changed = []
+    if tier == 'quick' and not a.configs:
+        try:
+            changed = changes.changed_files()
+        except Exception:
+            changed = []
+        if changed:
+            atypes, ascalar, aglobal = changes.affected_types(changed)
+            have = {c.name for c in cfgs}
+            extra_cfgs = [c for c in configs.ALL if c.name not in have]
+            if atypes or ascalar:
+                for c in extra_cfgs:
+                    focus[c.name] = (atypes, ascalar)
+                cfgs = list(cfgs) + extra_cfgs
+            print('[%s quick] %d header(s) differ from the baseline (%s%s): adding %d configuration(s) for %d affected type(s)%s'
+                  % (prop, len(changed), ', '.join(os.path.basename(c) for c in changed[:4]), ' ...' if len(changed) > 4 else '', len(focus), len(atypes),
+                     ' and the scalar overloads' if ascalar else ''), flush=True)
     for cfg in cfgs:
         ws = gen.wrappers_for(cfg, [prop], tier, **(gen_kwargs or {})) + memops.wrappers_for(cfg, [prop], tier)
+        if cfg.name in focus:
+            atypes, ascalar = focus[cfg.name]
+            ws = [w for w in ws if (w['type'] in atypes and not w['scalar']) or (w['scalar'] and ascalar) or (w['scalar'] and w['type'] in atypes)]
         if a.ops:
             ws = [w for w in ws if re.search(a.ops, w['op'])]
         if a.types:
